@@ -428,7 +428,20 @@ pub fn run_cfg(prop: SProp, cfg: &SCfg, prefix: &[u16], render_it: bool) -> (Run
     let mut nt = false;
     match prop {
         SProp::C02 => c02(cfg, &e, &f, &mut vs, &mut nt),
-        SProp::C04 => c04(cfg, &e, &f, prefix, &mut vs, &mut nt, &mut out.extra_execs),
+        SProp::C04 => {
+            c04(cfg, &e, &f, prefix, &mut vs, &mut nt, &mut out.extra_execs);
+            // "stops counting as in flight" also for the request limiter: a request refused
+            // although, the cancelled ones left out, fewer than L were in flight
+            if cfg.limit.is_some() {
+                let (mut v12, mut nt12) = (vec![], false);
+                c12(cfg, &e, &f, &mut v12, &mut nt12);
+                for v in v12 {
+                    if v.signature == "C12-refused-below-limit" && !f.cancels_read.is_empty() {
+                        vs.push(Violation { signature: "C04-c-still-counted-by-limiter".into(), message: v.message });
+                    }
+                }
+            }
+        }
         SProp::C06 => c06(cfg, &e, &f, &mut vs, &mut nt),
         SProp::C08 => c08(cfg, &e, &f, &mut vs, &mut nt),
         SProp::C09 => c09(cfg, &e, &f, &mut vs, &mut nt),
@@ -1253,6 +1266,8 @@ fn base(reqs: Vec<ReqCfg>, limit: Option<usize>, rb: usize, fl: Flavour, cap: us
         reuse_after_end: false,
         dup_deadline_ms: 10_000,
         via_serde: false,
+        start_age_ms: 0,
+        limit_via_incoming: false,
     }
 }
 
@@ -1345,6 +1360,22 @@ pub fn configs(prop: SProp, tier: Tier) -> Vec<SCfg> {
                             let mut r = ReqCfg::simple(0, fin);
                             r.deadline_ms = *d0;
                             out.push(base(vec![r.clone()], limit, 1, *fl, *cap, alpha));
+                            // the connection has been idle for 2 / 500 / 800 days when the
+                            // request arrives (the channel's timer queue is renewed when it is
+                            // found empty and old; seeded change C06f capped the first timer
+                            // after the idle period by the old queue's age)
+                            if *d0 >= 1 && *d0 <= 1000 && limit != Some(2) {
+                                for age_days in [2i64, 500, 800] {
+                                    let age = age_days * 86_400_000;
+                                    let mut r0 = r.clone();
+                                    r0.deadline_ms = age + *d0;
+                                    let mut r1 = ReqCfg::simple(1, fin);
+                                    r1.deadline_ms = age + 300 * 86_400_000;
+                                    let mut c = base(vec![r0, r1], limit, 1, *fl, *cap, alpha);
+                                    c.start_age_ms = age;
+                                    out.push(c);
+                                }
+                            }
                             // the same request arriving over a serializing hop (deadline sent
                             // as the remaining time, zero when it has passed)
                             if *d0 <= 50 && limit != Some(2) {
@@ -1540,6 +1571,14 @@ pub fn configs(prop: SProp, tier: Tier) -> Vec<SCfg> {
                                 }
                                 let reqs: Vec<ReqCfg> = pol.iter().enumerate().map(|(i, f)| ReqCfg::simple(i as u64, *f)).collect();
                                 out.push(base(reqs.clone(), Some(l), rb, *fl, *cap, alpha));
+                                // the same limit configured on the listener rather than on the
+                                // channel (seeded change C12f: the listener adaptor silently
+                                // raised a limit of 0 to 1)
+                                if n <= 2 && rb == 1 && *cap == 1 {
+                                    let mut c = base(reqs.clone(), Some(l), rb, *fl, *cap, alpha);
+                                    c.limit_via_incoming = true;
+                                    out.push(c);
+                                }
                                 // the application may also give a request up (drop its handler)
                                 if (1..=2).contains(&l) && n <= 3 && rb == 1 && *cap == 1 {
                                     out.push(base(reqs.clone(), Some(l), rb, *fl, *cap, alpha | S_DROPH));
